@@ -71,6 +71,7 @@ var pieceTable = []piece{
 	{name: "nl", val: "\n"},
 	// extended alphabet (random tier, fuzzing)
 	{name: "sq", val: `'`},
+	{name: "bs", val: `\`, src: `\\`, rawVal: `\`}, // ONE backslash: in a raw literal it is an ordinary character, also directly before the closing quote
 	{name: `\"`, val: `"`, src: `\"`, rawVal: `\"`}, // the documented escape written out, also inside '...'
 	{name: "ä", val: "ä"},
 	{name: `\u00e4`, val: "ä", src: `\u00e4`, rawVal: `\u00e4`},
@@ -591,6 +592,17 @@ func TestExhaustive(t *testing.T) {
 			}
 		}
 	}, runCase)
+	// a raw literal is untouched whatever it ends in: single backslashes (an odd number of them) before the closing quote
+	hx.Enumerate(t, "raw-backslash-tail", func(yield func(Case) bool) {
+		for _, head := range append([][]string{nil}, [][]string{{"a"}, {"{{1+1}}"}, {`\\`}, {"{{"}, {"}}"}, {"dq"}, {"sq"}, {"nl"}, {"bs", "a"}, {"{{x}}"}}...) {
+			for _, tail := range [][]string{{"bs"}, {"bs", "bs", "bs"}, {`\\`, "bs"}, {"bs", "dq"}, {"bs", "sq"}, {"bs", "n"}} {
+				if !yield(Case{Form: "raw", Pieces: append(append([]string(nil), head...), tail...), Env: Env{X: "v", Y: "w", T: "T"}, Assign: len(head)%2 == 0}) {
+					return
+				}
+			}
+		}
+	}, runCase)
+	hx.E.Exhaustive("raw-backslash-tail", "raw literals of 11 heads x 6 tails made of single backslashes directly before the closing quote (or before a quote character of the other kind)")
 	hx.E.Exhaustive("literals", map[string]interface{}{
 		"quoted_forms": []string{"dq", "sq"}, "quoted_pieces": names(nCoreQuoted), "quoted_max_pieces": dq,
 		"raw_pieces": names(nCoreRaw), "raw_max_pieces": dr,
